@@ -378,6 +378,18 @@ type VBuildOpts struct {
 // Build assembles (with the node's own worker), seals and wire-encodes a block on top of the
 // current Heads. It does not append it.
 func (n *VNode) Build(o VBuildOpts) (*types.WorkObject, error) {
+	comb, err := n.buildUnsealed(o)
+	if err != nil {
+		return nil, err
+	}
+	if n.Cfg.Levels == 1 {
+		o.Order = 2
+	}
+	return n.Seal(comb, o.Order, o.Salt)
+}
+
+// buildUnsealed: the worker-assembled, harness-finished block before a pow hash is chosen.
+func (n *VNode) buildUnsealed(o VBuildOpts) (*types.WorkObject, error) {
 	if n.Cfg.Levels == 1 {
 		o.Order = 2
 	}
@@ -432,7 +444,7 @@ func (n *VNode) Build(o VBuildOpts) (*types.WorkObject, error) {
 	if !o.NoReseal {
 		comb.WorkObjectHeader().SetHeaderHash(comb.Header().Hash())
 	}
-	return n.Seal(comb, o.Order, o.Salt)
+	return comb, nil
 }
 
 // Seal chooses a pow hash (MixHash) at or below target that yields the wanted order according to
@@ -592,3 +604,36 @@ func (n *VNode) Mine(o VBuildOpts) (*types.WorkObject, error) {
 
 // SetHeads rewinds/forwards the harness' notion of the tips (used to build forks).
 func (n *VNode) SetHeads(h [3]*types.WorkObject) { n.Heads = h }
+
+// VScaleLockBytes additionally shrinks the "first two months" window so that non-zero lockup bytes
+// (and their reward multiples) become legal after a handful of blocks. Must be called before
+// VScaleParams' values are relied upon by a node; used by the reward/lockup check only.
+func VScaleLockBytes() {
+	params.BlocksPerMonth = 2
+	VScaled["BlocksPerMonth"] = 2
+}
+
+// VMakeWorkShare builds a work share on the current zone head: the worker's pending header for the
+// given miner, sealed with a pow hash ABOVE the block target but within the work-share threshold
+// (target * 2^WorkSharesThresholdDiff), registered with the worker so that following blocks may
+// include it as an uncle.
+func (n *VNode) VMakeWorkShare(coinbase common.Address, lock uint8, salt int64) (*types.WorkObjectHeader, error) {
+	cb := coinbase
+	wo, err := n.buildUnsealed(VBuildOpts{Order: 2, Fill: false, Coinbase: &cb, LockByte: lock})
+	if err != nil {
+		return nil, err
+	}
+	target := new(big.Int).Div(common.Big2e256, wo.Difficulty())
+	h := new(big.Int).Mul(target, big.NewInt(4))
+	h.Sub(h, big.NewInt(salt+1))
+	wo.WorkObjectHeader().SetMixHash(common.BigToHash(h))
+	rt, err := VRoundTrip(wo, VZoneLoc)
+	if err != nil {
+		return nil, err
+	}
+	ws := rt.WorkObjectHeader()
+	if err := n.Sl[2].miner.worker.AddWorkShare(ws); err != nil {
+		return nil, err
+	}
+	return ws, nil
+}
